@@ -15,3 +15,4 @@ import PolyVerif.Props.C14
 import PolyVerif.Props.C18
 import PolyVerif.Props.C02
 import PolyVerif.Props.C20
+import PolyVerif.Props.C16
